@@ -17,6 +17,8 @@ import (
 //verif:case C16 quick VerifCondWakeups 1..2 0..1 0 2 0
 //verif:case C16 quick VerifCondWakeups 1..2 11..12 0..1 0 0
 //verif:case C16 quick VerifCondWakeups 2 0..1 0..1 0 2
+//verif:case C16 quick VerifCondWakeups 2 3 0..1 0 0
+//verif:case C16 quick VerifCondWakeups 2 2 0 1 0
 //verif:case C16 thorough VerifCondWakeups 3 0..1 0 0 2
 //verif:case C16 thorough VerifCondWakeups 3 11..12 0 0 0
 //verif:case C16 thorough VerifCondWakeups 3 0..3 0..1 0 0
